@@ -129,10 +129,14 @@ CLAIMS = {
              "over it. The model's answer is compared with RuntimeAnalysis.has_quantum_runtime on generated programs, and the "
              "property itself is checked against ground truth: event logs of the same compiled kernel over the whole argument domain "
              "(answer False and an acting run => violation; syntactically quiet call graph => must answer False). "
-             "Partial: the soundness theorem of the analysis model w.r.t. the evaluator (answer no => no event on any run) is not "
-             "proved yet; soundness is currently carried by the ground-truth comparison.",
-        note=TB + "Partial (see text). kirin's forward-analysis framework and const hints are exercised, not modelled.",
-        technique="Lean 4 model + regenerated registry table (decide) + differential correspondence against executed ground truth",
+             "Theorem C09_sound (Lemmas/Runtime.lean: a logical relation over closure values, by induction on the evaluator's fuel): "
+             "if the modelled analysis answers False for a kernel then no run of the reference evaluator, for any first-order "
+             "arguments, any resolution of spec lookups and any length, performs a device-visible event; recursion cut-off, "
+             "closures created in one frame and called in another, loops and early returns included.",
+        note=TB + "The theorem is about Model/Runtime.lean and Model/Lang.lean; kirin's forward-analysis framework and const hints "
+                  "(which call sites resolve to which closure) are exercised by the correspondence, not modelled.",
+        technique="Lean 4 soundness proof of the analysis model against the reference evaluator + regenerated registry table (decide) "
+                  "+ differential correspondence against executed ground truth",
         ref="§3 C09"),
     "C10": dict(
         text="Model/ZoneAI.lean: the analysis' transfer functions (static-trap lookup, folded Grid/SubGrid constants through the "
